@@ -1,6 +1,6 @@
 (* Entry points for C14 (mapping files): the abstract configuration arrives as tokens next to the
    YAML text the implementation loads. *)
-From Coq Require Import String NArith ZArith List Bool.
+From Coq Require Import String Ascii NArith ZArith List Bool.
 From GF Require Import Base.Res Base.Bytes Base.Layout Base.Gen Model.Msg Model.Packet Model.ProdNF Model.Cfg Model.Pipe
      Model.Pb Model.Format Spec.GenPipe Drivers.D06 Drivers.D10 Drivers.D13.
 Import ListNotations.
@@ -66,6 +66,10 @@ Fixpoint parse_fmt (fuel : nat) (l : list tok) (f : afmt) : afmt * list tok :=
           parse_fmt fu r {| fFields := fFields f ++ [n]; fRename := fRename f; fRender := fRender f; fKeys := fKeys f |}
       | TS "rename" :: TS a :: TS b :: r =>
           parse_fmt fu r {| fFields := fFields f; fRename := fRename f ++ [(a, b)]; fRender := fRender f; fKeys := fKeys f |}
+      | TS "renameb" :: TS a :: TB b :: r =>
+          (* a new name given as bytes (any characters) *)
+          parse_fmt fu r {| fFields := fFields f; fRename := fRename f ++ [(a, string_of_list_ascii (map ascii_of_N b))];
+                            fRender := fRender f; fKeys := fKeys f |}
       | TS "render" :: TS a :: TS b :: r =>
           parse_fmt fu r {| fFields := fFields f; fRename := fRename f; fRender := fRender f ++ [(a, b)]; fKeys := fKeys f |}
       | TS "key" :: TS n :: r =>
